@@ -37,6 +37,7 @@ func init() {
 		{"bytes-reader-last-zero", "C01.bytes", ior, "\t\t\t\treturn 1, r.rErr\n", "\t\t\t\treturn 0, r.rErr\n", "final:bytes"},
 		{"bytes-reader-last-empty", "C01.bytes", ior, "errors.Is(r.rErr, io.EOF) && r.b.Len() > 0 {", "errors.Is(r.rErr, io.EOF) && r.b.Len() >= 0 {", "final:nonempty"},
 		{"bytes-writer-whole", "C01.bytes", ibw, "w.b.ReadBits(buf[:], l-(l%8))", "w.b.ReadBits(buf[:], l)", "IOBitWriter.WriteBits:take1"},
+		{"bytes-writer-fast-path", "C01.bytes", ibw, "\tif n, err = w.b.WriteBits(p, nBits); err != nil {", "\tif nBits > 0 && nBits%8 == 0 {\n\t\twn, wErr := w.w.Write(p[:nBits/8])\n\t\treturn int64(wn) * 8, wErr\n\t}\n\tif n, err = w.b.WriteBits(p, nBits); err != nil {", "from-carry"},
 		{"bytes-writer-flush", "C01.bytes", ibw, "\t_, err = w.w.Write(buf[:])\n\n\treturn err", "\t_, err = w.w.Write(buf[:0])\n\n\treturn err", "IOBitWriter.Flush:take1:final:bytes"},
 		// C01.ioseek
 		{"ioseek-read-advance", "C01.ioseek", irs, "\tr.sPos += int64(n)\n", "", "Read:advance"},
